@@ -405,7 +405,12 @@ func (e *Engine) dynamicCall(st *State, fr *Frame, site ssa.Instruction, c *ssa.
 		for _, a := range c.Args {
 			ats = append(ats, a.Type())
 		}
-		for i, a := range args {
+		all := args
+		if c.IsInvoke() {
+			// arg0 is the receiver, as in the before/after call hooks
+			all = append([]Value{fv}, args...)
+		}
+		for i, a := range all {
 			if i < len(ats) {
 				specVars[fmt.Sprintf("arg%d", i)] = specVal{a, ats[i]}
 			}
